@@ -27,6 +27,8 @@ type tObj struct {
 	ap   ty   // type of additional properties; nil = forbidden
 	ks   *tStr // key shortcut: keys accepted by this string type ...
 	ksv  ty    // ... carry values of this type
+	pre  []byte // several key shortcuts: a key starting with pre[i] ...
+	prev []ty   // ... carries a value of type prev[i]; every such entry is required
 }
 
 func (tInt) ok(d *gen.Doc) bool  { return d.Kind == gen.KInt }
@@ -66,6 +68,7 @@ func (t tObj) ok(d *gen.Doc) bool {
 	}
 	seen := make([]bool, len(t.keys))
 	ksSeen := false
+	preSeen := make([]bool, len(t.pre))
 	for i, k := range d.Kids {
 		key := string(d.Keys[i])
 		found := -1
@@ -78,6 +81,20 @@ func (t tObj) ok(d *gen.Doc) bool {
 		case found >= 0:
 			seen[found] = true
 			if !t.vals[found].ok(k) {
+				return false
+			}
+		case len(t.pre) > 0:
+			hit := -1
+			for q := range t.pre {
+				if len(key) > 0 && key[0] == t.pre[q] {
+					hit = q
+				}
+			}
+			if hit < 0 {
+				return false
+			}
+			preSeen[hit] = true
+			if !t.prev[hit].ok(k) {
 				return false
 			}
 		case t.ks != nil && len(key) >= t.ks.min:
@@ -101,6 +118,11 @@ func (t tObj) ok(d *gen.Doc) bool {
 	if t.ks != nil && !ksSeen {
 		return false // the shortcut entry is a required property
 	}
+	for q := range preSeen {
+		if !preSeen[q] {
+			return false
+		}
+	}
 	return true
 }
 
@@ -118,7 +140,7 @@ var (
 	c03O2 = tObj{keys: []string{"q"}, vals: []ty{tStr{0}}, opt: []bool{true}}
 )
 
-var c03Types = [][2]string{{"@i", `1`}, {"@s", `"xy" // {minLength: 2}`}, {"@o", `{"p": 1}`}, {"@o2", "{\n  \"q\": \"s\" // {optional: true}\n}"}, {"@k", `"kk" // {minLength: 2}`}}
+var c03Types = [][2]string{{"@ka", `"a1" // {regex: "^a"}`}, {"@kb", `"b1" // {regex: "^b"}`}, {"@P", `{"a": 1}`}, {"@Q", `{"b": 1}`}, {"@C", "{ // {allOf: [\"@P\", \"@Q\"]}\n  \"v\": 1 // {optional: true}\n}"}, {"@i", `1`}, {"@s", `"xy" // {minLength: 2}`}, {"@o", `{"p": 1}`}, {"@o2", "{\n  \"q\": \"s\" // {optional: true}\n}"}, {"@k", `"kk" // {minLength: 2}`}}
 
 var c03Cases = []c03Case{
 	{`@i`, nil, c03I, nil},
@@ -137,6 +159,10 @@ var c03Cases = []c03Case{
 	{"{ // {additionalProperties: \"string\"}\n  \"a\": 1\n}", nil, tObj{keys: []string{"a"}, vals: []ty{tInt{}}, opt: []bool{false}, ap: tStr{0}}, []string{"a", "zz"}},
 	{"{ // {additionalProperties: \"@s\"}\n  \"a\": 1\n}", nil, tObj{keys: []string{"a"}, vals: []ty{tInt{}}, opt: []bool{false}, ap: c03S2}, []string{"a", "zz"}},
 	{"{ // {additionalProperties: false}\n  \"a\": 1 // {optional: true}\n}", nil, tObj{keys: []string{"a"}, vals: []ty{tInt{}}, opt: []bool{true}}, []string{"a", "zz"}},
+	{"{\n  @ka: 1,\n  @kb: \"s\"\n}", nil, tObj{pre: []byte{'a', 'b'}, prev: []ty{tInt{}, tStr{0}}}, []string{"a1", "b1", "c1"}},
+	{"{\n  \"c\": @C,\n  \"p\": @P\n}", nil, tObj{keys: []string{"c", "p"}, vals: []ty{
+		tObj{keys: []string{"v", "a", "b"}, vals: []ty{tInt{}, tInt{}, tInt{}}, opt: []bool{true, false, false}},
+		tObj{keys: []string{"a"}, vals: []ty{tInt{}}, opt: []bool{false}}}, opt: []bool{false, false}}, []string{"c", "p", "a", "b"}},
 	{"{\n  @k: 1,\n  \"b\": \"s\" // {optional: true}\n}", nil, tObj{keys: []string{"b"}, vals: []ty{tStr{0}}, opt: []bool{true}, ks: &tStr{2}, ksv: tInt{}}, []string{"b", "kk", "z"}},
 }
 
